@@ -221,3 +221,16 @@ PROPS['C12'] = dict(
     level_text="Lean 4 theorems for EVERY source string: C12_scan_shape (the token stream ends with exactly one EOF, no EOF before it, an error token only right before it – so the parser can never read past the end), C12_token_positions (each token carries the line and column obtained by advancing over exactly the runes before it: the diagnostics' positions), C12_token_line_in_range (the diagnostic formatter's source-line lookup cannot go out of range). The parser model (every parse* method with the push-back stack of capacity 4, the named-return-token convention, literal conversion errors as diagnostics, checked context assertion) is executable and agrees with the real parser on every generated input incl. the exact diagnostic token kind, line and column; its totality theorem is stated in full (C12_parse_total_statement) but NOT yet proved.",
     level_note="PARTIAL: parser totality (no runtime error, no stack-capacity panic, no hang for every token stream) rests on the correspondence run, not on a Lean proof. Stack exhaustion at extreme nesting, regexp running time and the goroutine scheduler are outside the model (the run checks for a leaked scanner goroutine and hangs with a watchdog). strconv and regexp are external; the recognisers are hand-written and compared with the real scanner on every line.",
 )
+
+PROPS['C11'] = dict(
+    id='C11', modules=['CollectionModel.Props.C11'], key=lambda l: (l.get('gen'), (l.get('parse') or {}).get('out'), min(l.get('size', 0), 12), tuple(sorted(set(t.get('tt') for t in l.get('toks', []))))[:9], min(len(l.get('toks', [])), 40) // 4),
+    nontrivial=lambda l: True, timeout=dict(quick=900, thorough=3000),
+    rule="cases = one sentence derived from the grammar of Syntax.cdsn by a recursive generator (inline and multi-line item "
+         "lists, the empty forms, every literal alternative incl. boundary literals, all seven contexts, nesting to depth 4, "
+         "item lists longer than the scanner queue and stack capacities) together with its intended meaning computed "
+         "independently with strconv and the collection classes; the real ParseSource result must equal it; every tenth sentence "
+         "is re-parsed 9 times concurrently under GOMAXPROCS 1, 2, 8; plus literals that cannot be represented exactly (must be rejected)",
+    exhaustive_subspaces="every literal alternative of the generator's table as a value (inline and multi-line) and as a key; the empty forms for all seven contexts",
+    level_text="Lean 4 theorems: C11_literal_exact / C11_parseIntrinsic_exact (an accepted literal is exactly the standard conversion of the token consumed; a conversion error can only end in a diagnostic, never in a value), C11_deterministic (the outcome is a function of the source: scanner and parser communicate through one single-producer single-consumer FIFO), C11_scan_ordinal / C11_scan_integer / C11_scan_hex (the lexical rules for ALL digit strings), keyword/delimiter tokenisation, and the negative result C11_counterexample_rune_quote. Completeness of the parser for every derivation of the grammar is NOT proved; it is held by the correspondence run: the executable parser model and the real parser agree with the independently computed meaning on every generated derivation.",
+    level_note="PARTIAL: parser completeness by correspondence only. strconv is the oracle for literal meaning (external). The grammar's undefined ESCAPE token is read as the scanner's escape set.",
+)
